@@ -4,7 +4,7 @@
    [holds (cur t) k v] : the abstract map maps k to v.
    Statements only; closed by [exact] of lemmas of ArrLemmas.v. *)
 From Coq Require Import NArith ZArith List.
-From LC Require Import gen.HashGen Core Api InvDefs ArrLemmas.
+From LC Require Import gen.HashGen Core Api InvDefs ArrLemmas Stats InsertLemmas Resize Lazy.
 Import ListNotations.
 Local Open Scope N_scope.
 
@@ -57,3 +57,229 @@ Theorem C02_lookup_update_erase_refine_map :
       (k' <> k /\ holds (cur t) k' v') \/ (k' = k /\ snd (g v) = false /\ v' = fst (g v)).
 Proof. exact lookup_fn_present. Qed.
 Print Assumptions C02_lookup_update_erase_refine_map.
+(* ---- generated statements (tools/mkprops.py): insertion path, doubling, deferred migration ---- *)
+(* [wf]/[lholds]: invariant and abstraction of a table with deferred migration pending (Lazy.v);
+   they collapse to [settled]/[holds] when nothing is pending (Lazy.wfg_settled, lholds_settled). *)
+
+Theorem C02_insert_path_specification :
+  forall (c : config) (hash : N -> N),
+  cfg_ok c ->
+  forall (mode : bool) (t : table) (k : N),
+  settled c hash t ->
+  let hp := bhp (cur t) in
+  let i1 := i1_of hash hp k in
+  let i2 := i2_of hash hp k in
+  exists (t' : table) (res : ci_result),
+  cuckoo_insert c hash mode t k i1 i2 = (t', res) /\
+  same_contents c hash t t' /\
+  (key_in (cur t) k ->
+  exists pos : table_position,
+  res = CI_pos pos /\
+  pstatus pos = St_duplicated /\
+  (exists e : entry, bget (cur t') (pindex pos) (pslot pos) = Some e /\ ekey e = k)) /\
+  (~ key_in (cur t) k ->
+  res = CI_fuel \/
+  (exists pos : table_position,
+  res = CI_pos pos /\
+  (pstatus pos = St_ok /\
+  bget (cur t') (pindex pos) (pslot pos) = None /\
+  (pindex pos = i1 \/ pindex pos = i2) /\ pslot pos < spb c \/ pstatus pos = St_table_full))).
+Proof. exact cuckoo_insert_spec. Qed.
+Print Assumptions C02_insert_path_specification.
+
+Theorem C02_displacement_search_well_formed_and_bounded :
+  forall (c : config) (hash : N -> N),
+  cfg_ok c ->
+  forall (mode : bool) (t : table) (hp i1 i2 : N) (t' : table) (path : list cuckoo_record) (depth : N),
+  all_migrated t ->
+  cuckoopath_search c hash mode t hp i1 i2 = (t', Some (path, depth)) ->
+  t' = t /\
+  (N.to_nat depth < length path)%nat /\
+  Forall (slot_ok c) path /\
+  path_wf hp path /\ (crbucket (nth_rec path 0) = i1 \/ crbucket (nth_rec path 0) = i2) /\ depth <= 4.
+Proof. exact cuckoopath_search_shape. Qed.
+Print Assumptions C02_displacement_search_well_formed_and_bounded.
+
+Theorem C02_bfs_queue_never_overflows :
+  forall (c : config) (hash : N -> N),
+  cfg_ok c ->
+  forall (mode : bool) (t : table) (hp i1 i2 : N) (extra : nat),
+  slot_search_loop c hash mode t hp (bfs_init i1 i2) (S (N.to_nat (max_cuckoo_count c)) + extra) =
+  slot_search c hash mode t hp i1 i2.
+Proof. exact slot_search_fuel_enough. Qed.
+Print Assumptions C02_bfs_queue_never_overflows.
+
+Theorem C02_split_decision_on_doubling :
+  forall (hash : N -> N) (ohp k b : N),
+  ohp + 1 < 62 ->
+  b < 2 ^ ohp ->
+  cand hash ohp k b ->
+  let nb := wrap64 (b + hashsize ohp) in
+  let h := hash k in
+  let p := partial_key h in
+  let old_ihash := index_hash ohp h in
+  let old_ahash := alt_index ohp p old_ihash in
+  let new_ihash := index_hash (ohp + 1) h in
+  let new_ahash := alt_index (ohp + 1) p new_ihash in
+  let to_new := ((b =? old_ihash) && (new_ihash =? nb) || (b =? old_ahash) && (new_ahash =? nb))%bool in
+  nb = b + 2 ^ ohp /\
+  (to_new = true -> cand hash (ohp + 1) k nb) /\ (to_new = false -> cand hash (ohp + 1) k b).
+Proof. exact move_decision. Qed.
+Print Assumptions C02_split_decision_on_doubling.
+
+Theorem C02_immediate_doubling_preserves_contents :
+  forall (c : config) (hash : N -> N),
+  cfg_ok c ->
+  forall (mode : bool) (t : table),
+  settled c hash t ->
+  counted c t ->
+  bhp (cur t) + 1 < 62 ->
+  hashsize (bhp (cur t)) < kmax c \/ mode = true /\ (length (cur_locks t) <= N.to_nat (kmax c))%nat ->
+  let t' := fast_double_body c hash mode t (bhp (cur t) + 1) in
+  settled c hash t' /\
+  counted c t' /\
+  bhp (cur t') = bhp (cur t) + 1 /\
+  (forall (k : N) (v : Z), holds (cur t') k v <-> holds (cur t) k v) /\
+  rc t' = wrap64 (rc t + 1) /\
+  mlfn t' = mlfn t /\
+  mlfd t' = mlfd t /\
+  mhp t' = mhp t /\
+  workers t' = workers t /\
+  nrem t' = 0 /\
+  length (cur_locks t') =
+  Nat.max (length (cur_locks t)) (N.to_nat (N.min (kmax c) (2 ^ (bhp (cur t) + 1)))).
+Proof. exact fast_double_body_immediate. Qed.
+Print Assumptions C02_immediate_doubling_preserves_contents.
+
+Theorem C02_deferred_doubling_preserves_contents :
+  forall (c : config) (hash : N -> N),
+  cfg_ok c ->
+  forall t : table,
+  settled c hash t ->
+  counted c t ->
+  bhp (cur t) + 1 < 62 ->
+  kmax c <= hashsize (bhp (cur t)) ->
+  (length (cur_locks t) <= N.to_nat (kmax c))%nat ->
+  let t' := fast_double_body c hash false t (bhp (cur t) + 1) in
+  wf c hash t' /\
+  lcounted c t' /\
+  bhp (cur t') = bhp (cur t) + 1 /\
+  (forall (k : N) (v : Z), lholds c t' k v <-> holds (cur t) k v) /\
+  rc t' = wrap64 (rc t + 1) /\
+  mlfn t' = mlfn t /\
+  mlfd t' = mlfd t /\
+  mhp t' = mhp t /\
+  workers t' = workers t /\
+  nrem t' = kmax c /\
+  cur t' = bnew (bhp (cur t) + 1) /\
+  old t' = cur t /\
+  length (cur_locks t') = N.to_nat (kmax c) /\ (forall l : N, l < kmax c -> mig (lock_at t' l) = false).
+Proof. exact fast_double_body_deferred. Qed.
+Print Assumptions C02_deferred_doubling_preserves_contents.
+
+Theorem C02_stripe_migration_preserves_contents :
+  forall (c : config) (hash : N -> N),
+  cfg_ok c ->
+  forall (s : bool) (t : table) (l : N),
+  wfg c hash s t ->
+  let t' := rehash_lock c hash s t l in
+  wfg c hash s t' /\
+  (forall (k : N) (v : Z), lholds c t' k v <-> lholds c t k v) /\
+  (lcounted c t -> lcounted c t') /\
+  mig (lock_at t' l) = true /\
+  (forall l' : N, l' <> l -> lock_at t' l' = lock_at t l') /\
+  (forall l' : N, mig (lock_at t l') = true -> mig (lock_at t' l') = true) /\
+  bhp (cur t') = bhp (cur t) /\
+  bhp (old t') = bhp (old t) /\
+  length (cur_locks t') = length (cur_locks t) /\
+  rc t' = rc t /\
+  mlfn t' = mlfn t /\
+  mlfd t' = mlfd t /\
+  mhp t' = mhp t /\
+  workers t' = workers t /\
+  (forall b s0 : N, mig (lock_at t (b mod kmax c)) = true -> bget (cur t') b s0 = bget (cur t) b s0).
+Proof. exact rehash_lock_wf. Qed.
+Print Assumptions C02_stripe_migration_preserves_contents.
+
+Theorem C02_lock_table_finishes_migration :
+  forall (c : config) (hash : N -> N),
+  cfg_ok c ->
+  forall (s : bool) (t : table),
+  wfg c hash s t ->
+  let t' := rehash_with_workers c hash t in
+  settled c hash t' /\
+  (lcounted c t -> counted c t') /\
+  (forall (k : N) (v : Z), holds (cur t') k v <-> lholds c t k v) /\
+  bhp (cur t') = bhp (cur t) /\
+  nrem t' = 0 /\
+  length (cur_locks t') = length (cur_locks t) /\
+  rc t' = rc t /\ mlfn t' = mlfn t /\ mlfd t' = mlfd t /\ mhp t' = mhp t /\ workers t' = workers t.
+Proof. exact rehash_with_workers_wf. Qed.
+Print Assumptions C02_lock_table_finishes_migration.
+
+Theorem C02_lookup_through_deferred_migration :
+  forall (c : config) (hash : N -> N),
+  cfg_ok c ->
+  forall (t : table) (k : N) (g : Z -> Z * bool),
+  wf c hash t ->
+  (forall v : Z,
+  lholds c t k v ->
+  exists t' : table,
+  lookup_fn c hash false t k g = (t', Some v) /\
+  wf c hash t' /\
+  bhp (cur t') = bhp (cur t) /\
+  (lcounted c t -> lcounted c t') /\
+  (forall (k' : N) (v' : Z),
+  lholds c t' k' v' <-> k' <> k /\ lholds c t k' v' \/ k' = k /\ snd (g v) = false /\ v' = fst (g v))) /\
+  ((forall v : Z, ~ lholds c t k v) ->
+  exists t' : table, lookup_fn c hash false t k g = (t', None) /\ wf c hash t' /\ lstep c t t').
+Proof. exact lookup_fn_wf. Qed.
+Print Assumptions C02_lookup_through_deferred_migration.
+
+Theorem C02_insert_path_through_deferred_migration :
+  forall (c : config) (hash : N -> N),
+  cfg_ok c ->
+  forall (t : table) (k : N),
+  wf c hash t ->
+  let hp := bhp (cur t) in
+  let i1 := i1_of hash hp k in
+  let i2 := i2_of hash hp k in
+  mig (lock_at t (lockind c i1)) = true ->
+  mig (lock_at t (lockind c i2)) = true ->
+  exists (t' : table) (res : ci_result),
+  cuckoo_insert c hash false t k i1 i2 = (t', res) /\
+  wf c hash t' /\
+  lmv c t t' /\
+  ((exists v : Z, lholds c t k v) ->
+  exists pos : table_position,
+  res = CI_pos pos /\
+  pstatus pos = St_duplicated /\
+  (exists e : entry, bget (cur t') (pindex pos) (pslot pos) = Some e /\ ekey e = k)) /\
+  ((forall v : Z, ~ lholds c t k v) ->
+  res = CI_fuel \/
+  (exists pos : table_position,
+  res = CI_pos pos /\
+  (pstatus pos = St_ok /\
+  bget (cur t') (pindex pos) (pslot pos) = None /\
+  (pindex pos = i1 \/ pindex pos = i2) /\ pslot pos < spb c \/ pstatus pos = St_table_full))).
+Proof. exact cuckoo_insert_wf. Qed.
+Print Assumptions C02_insert_path_through_deferred_migration.
+
+Theorem C02_insert_new_key_no_expansion :
+  forall (c : config) (hash : N -> N),
+  cfg_ok c ->
+  forall (mode : bool) (t : table) (k : N) (v : Z) (t1 : table) (pos : table_position),
+  settled c hash t ->
+  cuckoo_insert c hash mode t k (i1_of hash (bhp (cur t)) k) (i2_of hash (bhp (cur t)) k) =
+  (t1, CI_pos pos) ->
+  pstatus pos = St_ok ->
+  exists t2 : table,
+  uprase_gen c hash mode t k v (fun (_ : Z) (_ : bool) => None) =
+  (t2, inr (true, [], (pindex pos, pslot pos))) /\
+  ~ key_in (cur t) k /\
+  settled c hash t2 /\
+  bhp (cur t2) = bhp (cur t) /\
+  (forall (k' : N) (v' : Z),
+  holds (cur t2) k' v' <-> k' = k /\ v' = v \/ k' <> k /\ holds (cur t) k' v').
+Proof. exact uprase_gen_insert_new. Qed.
+Print Assumptions C02_insert_new_key_no_expansion.
